@@ -421,6 +421,29 @@ impl Check for C13 {
                 labels.push("derive:both-traits".into());
             }
         }
+        // an impl that lacks several of its trait's methods / defines several the trait does not have:
+        // the diagnostics (several for one item) must come in one order in every process
+        if d.chance(40) {
+            let fi = d.below(files.len());
+            let nm = 3 + d.below(4);
+            let have = d.below(2);
+            let mut t = String::from("trait Wide13 {\n");
+            for m in 0..nm {
+                t.push_str(&format!("    fn w{m}(Self) -> int32;\n"));
+            }
+            t.push_str("}\nstruct Narrow13 { x: int32 }\nimpl Wide13 for Narrow13 {\n");
+            for m in 0..have {
+                t.push_str(&format!("    fn w{m}(self: Narrow13) -> int32 {{ self.x }}\n"));
+            }
+            for m in 0..d.below(3) {
+                t.push_str(&format!("    fn extra{m}(self: Narrow13) -> int32 {{ {m} }}\n"));
+            }
+            t.push_str("}\n");
+            files[fi].1.push('\n');
+            files[fi].1.push_str(&t);
+            labels.push("broken".into());
+            labels.push("broken:impl-missing-methods".into());
+        }
         // a random creation order of the files
         let mut perm: Vec<usize> = (0..files.len()).collect();
         for i in 0..perm.len() {
@@ -453,6 +476,6 @@ impl Check for C13 {
         ]
     }
     fn required_labels(&self, _tier: Tier) -> Vec<&'static str> {
-        vec!["stage:ok", "stage:typer", "diagnostics>=2", "imports>=2", "processes", "multi-file", "shape:diamond", "derive:both-traits", "extern-go>=2"]
+        vec!["stage:ok", "stage:typer", "diagnostics>=2", "imports>=2", "processes", "multi-file", "shape:diamond", "derive:both-traits", "extern-go>=2", "broken:impl-missing-methods"]
     }
 }
